@@ -60,6 +60,10 @@ THEOREMS = [
     'C02_text_every_card_locus_sense',
     'C02_split_surface_render',
     'C02_to_float_denotes',
+    'C02_text_every_card_locus_sense_linked',
+    'C02_text_every_card_all_mnemonics_linked',
+    'C02_torus_tr_linked',
+    'C02_frame_form_sense_linked',
     'C02_spec_sanity',
     'C02_sense_value_sign',
 ]
@@ -82,9 +86,11 @@ ASSUMPTIONS = [
     'the sheet selector of a K card is absent or of magnitude < 9 (int() '
     'truncation is modelled there; a larger one is Err EUnmodelled); the '
     'theorems take it in {absent, 0, +1, -1}; t^2 >= 0',
-    'three-point planes: orientation is proved when no tested quantity lies '
-    'in the band 0 < |v| <= 1e-14 (the code\'s epsilon); the band is swept '
-    'numerically only',
+    'three-point planes: the manual\'s orientation is proved when no tested '
+    'quantity lies in the band 0 < |v| <= 1e-14 |n| (the code\'s epsilon); '
+    'inside the band the code follows the thresholded rule (proved) and '
+    'the opposite orientation is the open finding '
+    'p3_epsilon_band_orientation; the sweep oracle is exact',
     'X/Y/Z cone form: r1, r2 >= 0 (MCNP admissibility; the sheet is then the one '
     'containing both points, apex-coincident points included)',
     'the 5-entry TX/TY/TZ form is not an MCNP card; it is read as B = C',
@@ -551,11 +557,11 @@ def in_p3_band(prm):
         return True
 
 
-def ref_params(mn, prm, band=P3_BAND):
+def ref_params(mn, prm, band=0.0):
     '''(mnemonic, parameters) handed to the reference semantics. The 5-entry
     torus is the converter's own extension, read as B = C. Three-point planes
-    are oriented here in exact arithmetic (mcnpref.plane_from_points uses a
-    1e-12 tolerance, coarser than the code's 1e-14).'''
+    are oriented here in EXACT rational arithmetic by the manual's rules (no
+    tolerance: the code's 1e-14 band is a finding, not part of the oracle).'''
     if mn in ('tx', 'ty', 'tz') and len(prm) == 5:
         return mn, list(prm) + [prm[4]]
     if mn == 'p' and len(prm) == 9:
@@ -644,10 +650,27 @@ def sweep_card(rng, mn, prm, n_random=40, n_cross=8, ref=None):
 
 def finding_class(mn, prm, status, detail):
     '''Name of the open finding that this failing card belongs to, or None.'''
+    if mn == 'p' and len(prm) == 9 and status == 'wrong' and in_p3_band(prm):
+        # exactly this defect: some quantity of the orientation rule lies
+        # inside the code's 1e-14 band, the manual's exact rule and the
+        # thresholded rule pick opposite orientations, and the card is
+        # converted as the thresholded rule says (C02_P_three_points_thresholded)
+        try:
+            banded = exact_three_point_plane(prm, P3_BAND)
+        except ValueError:
+            return None
+        again, _ = sweep_card(random.Random(0), mn, prm, 40, 8,
+                              ref=('p', banded))
+        if again == 'ok':
+            return 'p3_epsilon_band_orientation'
     return None
 
 
-WITNESSES = []      # no open finding class
+T50 = 2.0 ** -50
+WITNESSES = [
+    ('p3_epsilon_band_orientation', 'p',
+     [0.0, 0.0, -T50, 0.0, 1.0, -T50, 1.0, 0.0, -T50]),
+]
 
 
 # minimised cases kept from defects, mutation self-tests and branch triggers;
@@ -835,8 +858,8 @@ def run(res, tier, seed, proofs_ok):
 def _run(res, tier, seed, proofs_ok):
     rng = random.Random(seed)
     quick = tier == 'quick'
-    per_tag = 56 if quick else 600
-    n_bad = 480 if quick else 5000
+    per_tag = 48 if quick else 450
+    n_bad = 420 if quick else 3500
     res.rule = ('one surface card per case: every mnemonic of the mcnp2cad '
                 'table in every form (4- and 9-entry P, K with/without sheet '
                 'selector, 5/6-entry tori, 2/4-entry X/Y/Z incl. plane, '
@@ -1121,6 +1144,7 @@ def _run(res, tier, seed, proofs_ok):
     # ---- 4c. the text-to-card path ----
     import c02_text
     c02_text.run_ties(res, rng, quick)
+    c02_text.run_link_tie(res, rng, quick)
 
     # ---- 5. the Spec against the Python references ----
     spec_ties(res, rng, meta, quick)
@@ -1137,9 +1161,7 @@ def _run(res, tier, seed, proofs_ok):
             continue
         n_sweep += 1
         if mn == 'p' and len(prm) == 9 and in_p3_band(prm):
-            # inside the thresholds the code follows the thresholded rule
-            # (C02_P_three_points_thresholded); counted for the evidence
-            res.count('sweep:p3-inside-the-band (oracle uses the band)')
+            res.count('sweep:p3-inside-the-band')
         status, detail = sweep_card(rng, mn, prm,
                                     30 if quick else 120, 6 if quick else 25)
         swept[key] = status
